@@ -65,8 +65,13 @@ func (r *zzRegistry) Head(_ context.Context, ref name.Reference, _ ...string) (*
 // current source exists, is numbered last and is the only Active one.
 //
 //gosym:harness
-//gosym:cover registry-failure source-edit rollback success-after-failure
+//gosym:cover registry-failure source-edit rollback success-after-failure dotted-package-name
 func HarnessC14History() {
+	// a plain name, or one that is a DNS subdomain but not a DNS label
+	zzPkgName = []string{"provider-x", "acme.io-provider-x"}[zz.Choose("package.name", 2)]
+	if zzPkgName != "provider-x" {
+		zz.Cover("dotted-package-name")
+	}
 	s := kube.New()
 	s.Register(&v1.Provider{}, &v1.ProviderList{}, zzPkgGroup, "Provider")
 	s.Register(&v1.ProviderRevision{}, &v1.ProviderRevisionList{}, zzPkgGroup, "ProviderRevision")
